@@ -100,14 +100,17 @@ def r121(ctx, rep):
 
 # ------------------------------------------------------------------------ R12.2
 def _len_guarded(pm, node, fn_node):
+    """Is the row access under a test of the length of that very row?"""
+    target = node.value if isinstance(node, ast.Subscript) else (node.args[0] if isinstance(node, ast.Call) and node.args else None)
+    want = 'len(%s)' % norm(target) if target is not None else 'len('
     for p, c in enclosing(pm, node, stop=fn_node):
-        if isinstance(p, ast.IfExp) and p.body is c and 'len(' in norm(p.test):
+        if isinstance(p, ast.IfExp) and p.body is c and want in norm(p.test):
             return True
-        if isinstance(p, ast.If) and any(c is b for b in p.body) and 'len(' in norm(p.test):
+        if isinstance(p, ast.If) and any(c is b for b in p.body) and want in norm(p.test):
             return True
         if isinstance(p, (ast.GeneratorExp, ast.ListComp)):
             for g in p.generators:
-                if any('len(' in norm(i) for i in g.ifs):
+                if any(want in norm(i) for i in g.ifs):
                     return True
     return False
 
